@@ -55,3 +55,45 @@ func HarnessC07_AacEnums() {
 	vAssert(true, "enum helper returned")
 	vReach("c07-aac-enums")
 }
+
+// HarnessC07_AacLinear: decoding a stream of n, 2n, 4n ADTS frames (Decode repeated on the
+// remainder) or one frame with a payload of n, 2n, 4n bytes: the work grows no faster than linearly.
+func HarnessC07_AacLinear() {
+	many := vChoice(2) == 0
+	cost := func(n int) int {
+		var data []byte
+		frame := func(k int) {
+			fl := 7 + k
+			// syncword, MPEG-4, layer 0, no CRC; profile LC, 44.1 kHz, 2 channels; frame length fl
+			data = append(data, 0xff, 0xf1, 0x50, byte(0x80|fl>>11&3), byte(fl>>3), byte(fl<<5)|0x1f, 0xfc)
+			for i := 0; i < k; i++ {
+				data = append(data, byte(i))
+			}
+		}
+		if many {
+			for i := 0; i < n; i++ {
+				frame(2)
+			}
+		} else {
+			k := n
+			if k > 8000 {
+				k = 8000
+			}
+			frame(k)
+		}
+		return vMeasure(func() {
+			a, _ := NewADTS()
+			rest := data
+			for len(rest) > 0 {
+				_, left, err := a.Decode(rest)
+				vAssert(err == nil, "a well-formed ADTS stream decodes")
+				if err != nil || len(left) >= len(rest) {
+					break
+				}
+				rest = left
+			}
+		})
+	}
+	vLinear(cost, 48, 512, 1024, "ADTS decoding cost grows no faster than linearly with the input length")
+	vReach("c07-aac-linear")
+}
